@@ -176,7 +176,10 @@ def prune : P String := do
     | some c => c.w
     | none => none
   let m := pruner dominates oracle S xs
-  let a := if !same then a else { a with v := a.v.diffIf (m.1 ++ m.2 != arr || m.1.length != e) s!"Pruner model_kept={m.1.length} impl_kept={e}" }
+  -- `same = false`: Pruner::operator() did not produce the array that its documented composition (extractDominated,
+  -- extractBestAtSimplexCorners, WitnessLP, extractBestAtPoint, in the order of the source) produces on the same input
+  let a := if !same then { a with v := a.v.diffIf true "Pruner result differs from the loop rebuilt from its library pieces" }
+           else { a with v := a.v.diffIf (m.1 ++ m.2 != arr || m.1.length != e) s!"Pruner model_kept={m.1.length} impl_kept={e}" }
   -- oracle contract on the recorded answers (the library's own WitnessLP)
   let badW := calls.any (fun c => match c.w with
     | some w => match normalize w with
